@@ -1727,6 +1727,20 @@ pub async fn serve_sync(
     recv_res
 }
 
+/// Verification hooks (compiled only with `--cfg corro_verif`): thin public
+/// wrappers around private items so an external harness can drive them.
+#[cfg(corro_verif)]
+pub mod verif_hooks {
+    use super::*;
+
+    pub fn chunk_range_u64(
+        range: RangeInclusive<u64>,
+        chunk_size: usize,
+    ) -> Vec<RangeInclusive<u64>> {
+        chunk_range(range, chunk_size).collect()
+    }
+}
+
 #[cfg(test)]
 mod tests {
     use crate::api::public::api_v1_transactions;
